@@ -322,8 +322,8 @@ func buildFitgen() (string, error) {
 	return fitgenBin, fitgenErr
 }
 
-func runFitgen(bin, workDir, input, ver, out string, viaZip, override, hrst bool) (string, error) {
-	args := []string{}
+func runFitgen(bin, workDir, input, ver, out string, viaZip, override, hrst bool, extra ...string) (string, error) {
+	args := append([]string{}, extra...)
 	if hrst {
 		args = append(args, "-hrst")
 	}
@@ -461,6 +461,55 @@ func checkSelection(c selCase, labels map[string]int) (string, bool) {
 		}
 	}
 	names := []string{"messages.go", "types.go", "profile.go", "types_string.go"}
+	// third run, with -verbose, into a directory that holds the output of the
+	// first run except that one of the four files is missing, cut in half or
+	// has grown a line (an interrupted earlier run, a merge conflict, an edit
+	// by hand): the run repairs it, and what it prints does not change what
+	// it writes
+	{
+		o := filepath.Join(tmp, "out3")
+		os.MkdirAll(o, 0o755)
+		victim := names[(len(c.Disabled)+len(c.Version)+int(c.Version[len(c.Version)-1]))%len(names)]
+		how := (len(c.Disabled) / 4) % 3
+		for _, n := range names {
+			data, err := os.ReadFile(filepath.Join(outs[0], n))
+			if err != nil {
+				return fmt.Sprintf("fitgen did not write %s (%v)", n, err), false
+			}
+			if n == victim {
+				switch how {
+				case 0:
+					continue // missing
+				case 1:
+					data = data[:len(data)/2]
+				default:
+					data = append(data, "// edited by hand\n"...)
+				}
+			}
+			if err := os.WriteFile(filepath.Join(o, n), data, 0o644); err != nil {
+				return "HARNESS: " + err.Error(), false
+			}
+		}
+		log, err := runFitgen(bin, tmp, input, c.Version, o, c.ViaZip, c.ZipOverride, c.HRST, "-verbose")
+		if err != nil {
+			tail := log
+			if len(tail) > 1500 {
+				tail = tail[len(tail)-1500:]
+			}
+			return fmt.Sprintf("fitgen -verbose failed (%v) writing into a directory that holds an earlier output with a damaged %s:\n%s", err, victim, tail), false
+		}
+		labels["third run with -verbose over an earlier output with one damaged file"]++
+		for _, n := range names {
+			a, _ := os.ReadFile(filepath.Join(outs[0], n))
+			bb, err := os.ReadFile(filepath.Join(o, n))
+			if err != nil {
+				return fmt.Sprintf("fitgen -verbose, run over an earlier output whose %s was %s, exits successfully without writing %s (%v)", victim, []string{"missing", "cut in half", "edited"}[how], n, err), false
+			}
+			if !bytes.Equal(a, bb) {
+				return fmt.Sprintf("fitgen -verbose, run over an earlier output whose %s was %s, leaves a %s that differs from the first run's (%d vs %d bytes, first difference at byte %d)", victim, []string{"missing", "cut in half", "edited"}[how], n, len(bb), len(a), firstDiff(a, bb)), false
+			}
+		}
+	}
 	for _, n := range names {
 		a, err1 := os.ReadFile(filepath.Join(outs[0], n))
 		bb, err2 := os.ReadFile(filepath.Join(outs[1], n))
